@@ -3144,18 +3144,19 @@ CLAUSES = [
     # min_share values are about half of the share observed on the unchanged /repo, where the cases that hit an open
     # finding are excluded without labels (they still count in the denominator)
     Clause('interp', oracle_interp, G.interp_cases, quick=780, thorough=16000,
-           min_share={'shape_sym': 0.015, 'shape_near': 0.015, 'nt': 0.45, 'oblique': 0.35, 'dup_edge': 0.25, 'delta': 0.2, 'kind_random': 0.18, 'list': 0.2,
+           min_share={'nt': 0.45, 'oblique': 0.35, 'dup_edge': 0.25, 'delta': 0.2, 'kind_random': 0.18, 'list': 0.2,
                       'history': 0.2, 'history_reload_set': 0.1, 'history_reload_model': 0.1, 'history_back': 0.08,
                       'lscale_1': 0.2, 'lscale_small': 0.2, 'lscale<=1e-5': 0.14, 'lscale_big': 0.05,
                       'escale_1': 0.2, 'escale_small': 0.14, 'escale_big': 0.11, 'scaled_both': 0.15},
            desc='E_gsf/delta reproduce every input value at its sampled (a1,a2), smooth and nearest modes, arrays/lists/floats'),
     Clause('periodic', oracle_periodic, _periodic_cases, quick=780, thorough=16000,
-           min_share={'special_q': 0.11, 'shape_sym': 0.015, 'shape_near': 0.015, 'nt': 0.35, 'oblique': 0.28, 'shifted': 0.35, 'scalar': 0.18, 'history_mode_order': 0.2, 'history_mode_back': 0.1,
+           min_share={'special_q': 0.08, 'nt': 0.35, 'oblique': 0.28, 'shifted': 0.35, 'scalar': 0.18, 'history_mode_order': 0.2, 'history_mode_back': 0.1,
                       'lscale_1': 0.2, 'lscale_small': 0.17, 'lscale_big': 0.05, 'escale_1': 0.22, 'escale_small': 0.1, 'escale_big': 0.11},
            desc='E(a1+k1, a2+k2) = E(a1, a2) for integer periods; nearest mode equals the exact nearest-sample table'),
     Clause('coords', with_units(keyed_f16(keyed_inplane_assert(oracle_coords))), G.coords_cases, quick=1020, thorough=20000,
-           min_share={'special_q': 0.12, 'near_plane_pos': 0.2, 'near_plane_xvect': 0.08, 'units': 0.08, 'units_pre_default': 0.035,
-                      'units_named': 0.03, 'units_seed': 0.01, 'units_SI': 0.006, 'shape_sym': 0.015, 'shape_near': 0.015,
+           # (new classes: only labels with a large share are guarded, at a third of the lowest share seen - the shares of
+           # Hypothesis-generated classes vary by a factor of 2-8 between seeds and between complete and wall-limited runs)
+           min_share={'special_q': 0.08, 'near_plane_pos': 0.15, 'near_plane_xvect': 0.05, 'units': 0.05,
                       'nt': 0.45, 'oblique': 0.4, 'npts3': 0.15, 'xvect': 0.18, 'scalar': 0.18,
                       'history': 0.25, 'history_reload_set': 0.08, 'history_reload_model': 0.08, 'history_swap': 0.08, 'history_other_mode': 0.04,
                       'form_ro': 0.06, 'form_strided': 0.05, 'form_tuple': 0.04, 'form_npscalar': 0.04, 'form_int': 0.05, 'int_typed': 0.04,
@@ -3163,9 +3164,7 @@ CLAUSES = [
                       'escale_small': 0.1, 'escale_big': 0.09},
            desc='a12_to_pos, pos_to_xy, xy_to_pos, a12_to_xy, pos_to_a12(single) against independent basis algebra; mutual inverses'),
     Clause('coords_multi', with_units(keyed_f16(keyed_inplane_assert(oracle_coords_multi))), G.coords_cases, quick=1020, thorough=20000,
-           min_share=_BlockedGuard({'special_q': 0.12, 'near_plane_pos': 0.2, 'near_plane_xvect': 0.08, 'units': 0.08,
-                                    'units_pre_default': 0.035, 'units_named': 0.03, 'units_seed': 0.01, 'units_SI': 0.006,
-                                    'shape_sym': 0.015, 'shape_near': 0.015, 'nt': 0.3, 'oblique': 0.25, 'npts3': 0.1, 'npts7': 0.06, 'altvect': 0.18, 'smooth': 0.15, 'nearest': 0.2,
+           min_share=_BlockedGuard({'special_q': 0.08, 'near_plane_pos': 0.15, 'near_plane_xvect': 0.05, 'units': 0.05, 'nt': 0.3, 'oblique': 0.25, 'npts3': 0.1, 'npts7': 0.06, 'altvect': 0.18, 'smooth': 0.15, 'nearest': 0.2,
                                     'history': 0.25, 'history_reload_set': 0.1, 'history_reload_model': 0.08, 'history_swap': 0.1,
                                     'history_other_mode': 0.05,
                                     'combo_both_xdefault': 0.18, 'combo_both_xexplicit': 0.18, 'combo_a1only_xdefault': 0.18,
@@ -3180,18 +3179,17 @@ CLAUSES = [
            desc='pos_to_a12 / xy_to_a12 on 1,2,3,7 positions; E_gsf and delta given a1/a2, pos, x/y agree; every combination of the '
                 'keywords a1vect / a2vect / xvect of all conversion methods and of E_gsf / delta; input forms; caller\'s arrays unchanged'),
     Clause('coords_dtypes', keyed_f16(keyed_inplane_assert(oracle_coords_dtypes)), functools.partial(G.coords_cases, True), quick=260, thorough=5000,
-           min_share=_BlockedGuard({'nt': 0.45, 'narrow': 0.5, 'form_narrow': 0.5, 'history': 0.2, 'altvect': 0.15, 'narrow_f4': 0.2, 'int_typed': 0.08},
+           min_share=_BlockedGuard({'nt': 0.45, 'narrow': 0.5, 'form_narrow': 0.5, 'history': 0.15, 'altvect': 0.12},
                                    drop_alt=('altvect',)),
            desc='storage and input dtypes of the conversions and of E_gsf / delta: float32, float16, int8, int16, uint8, uint16, big-endian, Fortran / '
                 'reversed-stride arrays and numpy scalars holding exactly representable values (eighths, whole coordinates up to the dtype limits, '
                 'dyadic shift vectors), judged by the oracles of coords and coords_multi'),
     Clause('model', with_units(oracle_model), G.model_cases, quick=350, thorough=6000,
-           min_share={'units': 0.07, 'units_pre_default': 0.03, 'nt': 0.3, 'json': 0.3, 'history_load_into_existing': 0.2,
+           min_share={'units': 0.05, 'nt': 0.3, 'json': 0.3, 'history_load_into_existing': 0.2,
                       'lscale_1': 0.2, 'lscale_small': 0.19, 'lscale_big': 0.05, 'escale_1': 0.22, 'escale_small': 0.1, 'escale_big': 0.09},
            desc='model() -> JSON/XML text, DataModelDict or file -> GammaSurface: same data, vectors, box, answers'),
     Clause('pn_terms', with_units(keyed_dtype(oracle_pn_terms)), G.pn_hist_cases, quick=1280, thorough=25000,
-           min_share=_BlockedGuard({'frame_signed_axes': 0.12, 'near_inplane_dy': 0.12, 'profile_decades': 0.015, 'units': 0.05,
-                                    'units_pre_default': 0.02, 'nt': 0.16, 'mixed': 0.23, 'K_offdiag': 0.13, 'N>120': 0.1, 'cdiffelastic': 0.15, 'tau': 0.15,
+           min_share=_BlockedGuard({'frame_signed_axes': 0.08, 'near_inplane_dy': 0.08, 'units': 0.04, 'nt': 0.16, 'mixed': 0.23, 'K_offdiag': 0.13, 'N>120': 0.1, 'cdiffelastic': 0.15, 'tau': 0.15,
                                     'history': 0.2, 'history_same_len_new_spacing': 0.12, 'history_setter_between': 0.15,
                                     'history_settings_changed': 0.12, 'history_new_len': 0.06, 'history_steps>=2': 0.15,
                                     'forms': 0.35, 'history_forms': 0.2, 'int_typed': 0.2, 'xform_int': 0.1, 'dform_int': 0.07,
@@ -3202,8 +3200,7 @@ CLAUSES = [
            desc='disldensity, elastic, long-range, stress (both forms), surface, nonlocal vs independent formula evaluation; quadratic form, rigid shift; '
                 'repeated evaluations on one object (arguments / setters / changed settings)'),
     Clause('pn_total', with_units(keyed_dtype(keyed_inplane_assert(oracle_pn_total))), G.pn_hist_cases, quick=850, thorough=16000,
-           min_share=_BlockedGuard({'frame_signed_axes': 0.12, 'near_inplane_dy': 0.12, 'profile_decades': 0.015, 'units': 0.03,
-                                    'units_pre_default': 0.012, 'nt': 0.15, 'mixed': 0.23, 'wraps': 0.1, 'crystal_rot': 0.15,
+           min_share=_BlockedGuard({'frame_signed_axes': 0.08, 'near_inplane_dy': 0.08, 'units': 0.03, 'nt': 0.15, 'mixed': 0.23, 'wraps': 0.1, 'crystal_rot': 0.15,
                                     'history': 0.17, 'history_same_len_new_spacing': 0.09, 'history_setter_between': 0.12,
                                     'history_settings_changed': 0.06, 'history_new_len': 0.035,
                                     'forms': 0.35, 'history_forms': 0.2, 'int_typed': 0.2, 'xform_int': 0.1, 'dform_int': 0.07,
@@ -3214,7 +3211,7 @@ CLAUSES = [
            desc='misfit energy vs dx*sum gamma(delta) by independent conversion; total = sum of the six terms = independent evaluation; '
                 'repeated evaluations on one object'),
     Clause('pn_dtypes', keyed_dtype(keyed_inplane_assert(oracle_pn_dtypes)), functools.partial(G.pn_hist_cases, True), quick=260, thorough=5000,
-           min_share=_BlockedGuard({'forms_narrow': 0.4, 'narrow': 0.3, 'history': 0.15, 'nt': 0.15}),
+           min_share=_BlockedGuard({'forms_narrow': 0.4, 'narrow': 0.3, 'history': 0.12, 'nt': 0.12}),
            desc='storage dtypes of x / the disregistry (arguments, setters, histories): float32, float16, int8, int16, uint8, uint16, big-endian, '
                 'Fortran / reversed-stride arrays holding whole numbers, judged by the oracles of pn_terms and pn_total'),
     Clause('solve', keyed_dtype(keyed_inplane_assert(oracle_solve)), G.solve_cases, quick=64, thorough=640, max_share={'timeout_skipped': 0.2},
@@ -3228,21 +3225,21 @@ CLAUSES = [
     Clause('halfwidth', oracle_halfwidth, G.halfwidth_cases, quick=32, thorough=320,
            min_share=_BlockedGuard({'scaled': 0.3, 'lscale_small': 0.12, 'lscale_1': 0.2}),
            desc='sinusoidal misfit law: arctangent profile of lowest total energy has the classical half-width K b^2/(4 pi^2 gamma0)'),
-    Clause('decades', oracle_decades, G.decades_cases, quick=300, thorough=6000, min_share={'nt': 0.45, 'decades>=8': 0.45, 'oblique': 0.25},
+    Clause('decades', oracle_decades, G.decades_cases, quick=300, thorough=6000, min_share={'nt': 0.45, 'decades>=8': 0.45, 'oblique': 0.2},
            desc='one query array whose rows span 8-11 orders of magnitude: every conversion row by row relative to the magnitude of the row and '
                 'equal to the call with that row alone; E_gsf / delta of the array equal every row alone'),
     Clause('ledger', oracle_ledger, G.ledger_cases, quick=300, thorough=6000,
            # (shares over the cases that do not meet an open finding: on the unchanged tree about half of the cases do)
-           min_share={'op_call_same': 0.15, 'op_overwrite_in': 0.15, 'op_overwrite_out': 0.1, 'op_overwrite_query': 0.08, 'ledger_grew': 0.2, 'held_arr': 0.4},
+           min_share={'op_call_same': 0.1, 'op_overwrite_in': 0.1, 'op_overwrite_out': 0.06, 'op_overwrite_query': 0.06, 'ledger_grew': 0.15, 'held_arr': 0.3},
            desc='result ledger and caller-side mutation for GammaSurface: everything returned is kept and re-judged bit for bit, every answer is read '
                 'again, after later calls on this and another surface and after the caller overwrote / re-defined / re-used what it handed in and got back'),
     Clause('ledger_pn', keyed_inplane_assert(oracle_ledger_pn), G.ledger_pn_cases, quick=200, thorough=4000,
-           min_share=_BlockedGuard({'op_eval_same': 0.12, 'op_eval_other_obj': 0.12, 'op_solve_other_obj': 0.1, 'held_arr': 0.4}),
+           min_share=_BlockedGuard({'op_eval_same': 0.08, 'op_eval_other_obj': 0.08, 'op_solve_other_obj': 0.06, 'held_arr': 0.3}),
            desc='the same for SDVPN: x / disregistry / tau / beta overwritten by the caller, arrays returned by disldensity overwritten, another '
                 'object on the same gamma surface evaluated, re-set and solved'),
     Clause('pn_options', oracle_pn_options, enumerate=G.option_cases,
            desc='every combination of fullstress / cdiffelastic / cdiffsurface / cdiffstress reached from every other one through the setters in every '
                 'order, through the constructor and through solve() keywords; all terms judged after every single change'),
-    Clause('arctan', with_units(oracle_arctan), G.arctan_cases, quick=1400, thorough=25000, min_share={'near_xmax': 0.07, 'x_decades': 0.04, 'units': 0.1, 'units_pre_default': 0.05, 'nt': 0.5, 'normalize': 0.2, 'derivative': 0.15, 'lscale_1': 0.2, 'lscale_small': 0.2, 'lscale<=1e-5': 0.13, 'lscale_big': 0.06},
+    Clause('arctan', with_units(oracle_arctan), G.arctan_cases, quick=1400, thorough=25000, min_share={'near_xmax': 0.04, 'units': 0.06, 'nt': 0.5, 'normalize': 0.2, 'derivative': 0.15, 'lscale_1': 0.2, 'lscale_small': 0.2, 'lscale<=1e-5': 0.13, 'lscale_big': 0.06},
            desc='pn_arctan_disregistry / pn_arctan_disldensity against the analytic forms, normalisation, x generation'),
 ]
